@@ -302,7 +302,7 @@ def parts(tier):
                {"kinds": "KINDS_SHAPE_LISTS", "samples": 1, "keys": ["a", "b"], "second_kinds": ["absent"], "frameworks": ["pydantic"], "layouts": ["flat"],
                 "symbolic_leaves": False}, shards=16, timeout=170, path_timeout=30, mode="CH-E"),
         ]
-    T = dict(shards=16, timeout=250, path_timeout=30)
+    T = dict(shards=16, timeout=150, path_timeout=30)
     return [
         CH("pairs_inference_options", "vflib.props.c01:scen_accept",
            {"kinds": "KINDS_FULL", "samples": 2, "keys": ["a"], "merge": ["default", "exact", "p50n2"], "registries": ["default", "none"],
@@ -325,7 +325,7 @@ def parts(tier):
            {"kinds": "KINDS_PAD", "samples": 3, "keys": ["a"], "frameworks": ["pydantic", "sqlmodel", "attrs"], "layouts": ["flat"], "symbolic_leaves": False}, mode="CH-E", **T),
         CH("datetime", "vflib.props.c01:scen_accept",
            {"kinds": "KINDS_DATE", "samples": 3, "keys": ["a"], "registries": ["datetime"], "frameworks": ["pydantic", "dataclasses", "attrs", "sqlmodel"]},
-           shards=12, timeout=250, path_timeout=30, mode="CH-E"),
+           shards=12, timeout=150, path_timeout=30, mode="CH-E"),
     ]
 
 
